@@ -145,7 +145,7 @@ class Gen:
         cte = op in ("is", "cs") and r.random() < 0.4
         cname = self.name(oa[2]) if r.random() < 0.6 and oa[2] != ob[2] else _spell(r, "cte1")   # a CTE named like its own source would be circular
         src = f"{kw('with')} {cname} {kw('as')} ({kw('select')} x {kw('from')} {tb}) {kw('select')} x {kw('from')} {cname}" if cte else f"{kw('select')} x {kw('from')} {tb}"
-        sql = {"is": f"{kw('insert into')} {ta} {src}",
+        sql = {"is": f"{kw('insert into')} {ta} (x) {src}",
                "cs": f"{kw('create table')} {ta} {kw('as')} {src}",
                "cl": f"{kw('create table')} {ta} {kw('clone')} {tb}",
                "uf": f"{kw('update')} {ta} {kw('set')} x = {ab}.x + 1000 {kw('from')} {tb} {kw('where')} {ab}.x = {bb}.x",
@@ -190,7 +190,9 @@ class Gen:
             self.objs.add(o)
             ifx = int(r.random() < 0.25)
             if r.random() < 0.75:
-                return {"op": f"s,{i},tc,t,0,{ifx},{enc}", "sql": f"{kw('create table if not exists' if ifx else 'create table')} {txt} (x {kw('int')})"}
+                n = r.randint(2, 60)   # declared VARCHAR length: the text-length bookkeeping must file it under the table's own schema
+                return {"op": f"s,{i},tc,t,0,{ifx},{enc}", "vlen": n,
+                        "sql": f"{kw('create table if not exists' if ifx else 'create table')} {txt} (x {kw('int')}, v {kw('varchar')}({n}))"}
             self.val += 1
             return {"op": f"s,{i},tc,v,{self.val},{ifx},{enc}",
                     "sql": f"{kw('create view if not exists' if ifx else 'create view')} {txt} {kw('as select')} {self.val} {kw('as')} x"}
@@ -205,9 +207,29 @@ class Gen:
         if kind == "ti":
             enc, txt, _ = self.tref()
             self.val += 1
-            return {"op": f"s,{i},ti,{self.val},{enc}", "sql": f"{kw('insert into')} {txt} {kw('values')} ({self.val})"}
+            form = r.random()
+            if '"' in txt and form < 0.2:
+                form = 0.9     # IDENTIFIER('…') with quoted parts is not explored (duckdb ParserException on the unchanged tree)
+            if form < 0.2:     # the table named through IDENTIFIER('<name>') or IDENTIFIER($var)
+                if r.random() < 0.5:
+                    return {"op": f"s,{i},ii,{self.val},{enc}", "sql": f"{kw('insert into identifier')}('{txt}') (x) {kw('values')} ({self.val})"}
+                return {"op": f"s,{i},ii,{self.val},{enc}", "pre": f"{kw('set')} tbl = '{txt}'", "sql": f"{kw('insert into identifier')}($tbl) (x) {kw('values')} ({self.val})"}
+            if form < 0.35:    # write_pandas(conn, df, table, database=?, schema=?): the three meaningful combinations
+                parts = txt.split(".")
+                args = {"table_name": parts[-1]}
+                if len(parts) >= 2:
+                    args["schema"] = parts[-2]
+                if len(parts) == 3:
+                    args["database"] = parts[0]
+                return {"op": f"s,{i},wp,{self.val},{enc}", "wp": args, "sql": f"write_pandas(conn, DataFrame(X=[{self.val}]), {', '.join(f'{k_}={v_!r}' for k_, v_ in args.items())})"}
+            return {"op": f"s,{i},ti,{self.val},{enc}", "sql": f"{kw('insert into')} {txt} (x) {kw('values')} ({self.val})"}
         if kind == "ts":
             enc, txt, _ = self.tref()
+            form = 0.9 if '"' in txt else r.random()
+            if form < 0.15:
+                return {"op": f"s,{i},is,{enc}", "sql": f"{kw('select')} x {kw('from identifier')}('{txt}') {kw('order by')} x"}
+            if form < 0.25:
+                return {"op": f"s,{i},is,{enc}", "pre": f"{kw('set')} tbl = '{txt}'", "sql": f"{kw('select')} x {kw('from identifier')}($tbl) {kw('order by')} x"}
             return {"op": f"s,{i},ts,{enc}", "sql": f"{kw('select')} x {kw('from')} {txt} {kw('order by')} x"}
         if kind == "w":
             return self.two(i)
@@ -225,6 +247,12 @@ def prefix(flags) -> list[dict]:
             {"op": f"s,0,ud,{OBS}", "sql": "use database obs"}]
 
 
+def suffix() -> list[dict]:
+    """the observer enters every database in turn; after each successful USE DATABASE it reads the declared VARCHAR lengths of that
+    database's tables (information_schema.columns must be read from a connection of that database)"""
+    return [{"op": f"s,0,ud,{d}", "sql": f"use database {sqlname(d)}", "lens": d} for d in DBS]
+
+
 def gen_history(rnd, length: int) -> dict:
     flags = rnd.choices([(1, 1), (0, 1), (1, 0), (0, 0)], [60, 16, 10, 14])[0]
     g = Gen(rnd, flags)
@@ -234,7 +262,7 @@ def gen_history(rnd, length: int) -> dict:
         ops.append(g.connect())
     for _ in range(length):
         ops.append(g.stmt())
-    return {"flags": list(flags), "ops": ops}
+    return {"flags": list(flags), "ops": ops + suffix()}
 
 
 def _upgrade(op: str, flags) -> str:
@@ -261,21 +289,21 @@ def corpus() -> list[dict]:
         for st in steps:
             op = st[0] if raw else _upgrade(st[0], flags)
             ops.append({"op": op, "connect": list(st[1])} if op.startswith("c,") else {"op": op, "sql": st[1]})
-        return {"flags": list(flags), "ops": ops}
+        return {"flags": list(flags), "ops": ops + suffix()}
     c11 = ("c,11,21", ("db1", "s1"))
     c22 = ("c,12,22", ("db2", "s2"))
     c0 = ("c,-,-", (None, None))
     return [
         # repaired: qualified USE SCHEMA switches the database too; probe rows land in db2.s2
-        H(c11, c22, ("s,1,su,12.22", "use schema db2.s2"), ("s,1,tc,t,0,31", "create table t1 (x int)"), ("s,1,ti,1,31", "insert into t1 values (1)"),
+        H(c11, c22, ("s,1,su,12.22", "use schema db2.s2"), ("s,1,tc,t,0,31", "create table t1 (x int)"), ("s,1,ti,1,31", "insert into t1 (x) values (1)"),
           ("s,2,ts,31", "select x from t1 order by x"), ("s,1,ts,12.22.31", "select x from db2.s2.t1 order by x"), ("s,1,x", "select current_database(), current_schema()")),
         # repaired: DROP SCHEMA otherdb.S1 must not reset DB1.S1; dropping the own current schema gives 90106 afterwards
         H(c11, ("c,12,21", ("db2", "s1")), ("s,1,sd,12.21", "drop schema db2.s1"), ("s,1,tc,t,0,31", "create table t1 (x int)"),
           ("s,1,sd,21", "drop schema s1"), ("s,1,tc,t,0,32", "create table t2 (x int)"), ("s,1,x", "select current_database(), current_schema()"),
           ("s,1,sc,21", "create schema s1"), ("s,1,su,11.21", "use schema db1.s1"), ("s,1,sd,11.21", "drop schema db1.s1"), ("s,1,ts,31", "select x from t1 order by x")),
         # known: USE DATABASE keeps a stale schema, unqualified names land in main, later fall back to main
-        H(c11, ("s,1,ud,11", "use database db1"), ("s,1,tc,t,0,32", "create table t2 (x int)"), ("s,1,ti,4,32", "insert into t2 values (4)"),
-          ("s,1,su,21", "use schema s1"), ("s,1,ts,32", "select x from t2 order by x"), ("s,1,ti,5,32", "insert into t2 values (5)"), ("s,1,td,t,32", "drop table t2")),
+        H(c11, ("s,1,ud,11", "use database db1"), ("s,1,tc,t,0,32", "create table t2 (x int)"), ("s,1,ti,4,32", "insert into t2 (x) values (4)"),
+          ("s,1,su,21", "use schema s1"), ("s,1,ts,32", "select x from t2 order by x"), ("s,1,ti,5,32", "insert into t2 (x) values (5)"), ("s,1,td,t,32", "drop table t2")),
         # known: another connection drops my current schema
         H(c11, c11, ("s,2,sd,11.21", "drop schema db1.s1"), ("s,1,tc,t,0,31", "create table t1 (x int)"), ("s,1,x", "select current_database(), current_schema()"),
           ("s,1,sc,22", "create schema s2"), ("s,1,su,22", "use schema s2"), ("s,1,tc,t,0,31", "create table t1 (x int)")),
@@ -286,7 +314,7 @@ def corpus() -> list[dict]:
         # 90105 / 90106 at every level, then qualified names work without any context
         H(c0, ("c,11,-", ("db1", None)), ("s,1,tc,t,0,31", "create table t1 (x int)"), ("s,1,tc,t,0,21.31", "create table s1.t1 (x int)"), ("s,1,sc,21", "create schema s1"),
           ("s,1,su,21", "use schema s1"), ("s,1,sc,11.21", "create schema db1.s1"), ("s,1,tc,t,0,11.21.31", "create table db1.s1.t1 (x int)"),
-          ("s,2,tc,t,0,31", "create table t1 (x int)"), ("s,2,tc,t,0,21.31", "create table s1.t1 (x int)"), ("s,2,ti,1,21.31", "insert into s1.t1 values (1)"),
+          ("s,2,tc,t,0,31", "create table t1 (x int)"), ("s,2,tc,t,0,21.31", "create table s1.t1 (x int)"), ("s,2,ti,1,21.31", "insert into s1.t1 (x) values (1)"),
           ("s,1,su,11.21", "use schema db1.s1"), ("s,1,ts,31", "select x from t1 order by x"), ("s,2,sd,21", "drop schema s1"), ("s,1,ts,31", "select x from t1 order by x")),
         # IF EXISTS / IF NOT EXISTS and quoted spellings: dropping the own current schema in every spelling gives 90106 afterwards
         H(("c,11,21,1,1", ("db1", "s1")), ("s,1,sd,1,21", "drop schema if exists s1"), ("s,1,tc,t,0,1,31", "create table if not exists t1 (x int)"),
@@ -296,12 +324,12 @@ def corpus() -> list[dict]:
           ("s,1,tc,t,0,1,31", "create table if not exists t1 (x int)"), ("s,1,tc,v,3,1,31", "create view if not exists t1 as select 3 as x"),
           ("s,1,tc,v,4,0,32", "create view t2 as select 4 as x"), ("s,1,tc,t,0,1,32", "create table if not exists t2 (x int)"), ("s,1,td,t,1,32", "drop table if exists t2"),
           ("s,1,td,v,1,33", "drop view if exists t3"), ("s,1,td,t,1,23.31", "drop table if exists s3.t1"), ("s,1,sd,1,22", 'drop schema if exists "S2"'),
-          ("s,1,ti,1,31", "insert into t1 values (1)"), ("s,1,cd,11,1", "create database if not exists db1"), raw=True),
+          ("s,1,ti,1,31", "insert into t1 (x) values (1)"), ("s,1,cd,11,1", "create database if not exists db1"), raw=True),
         # create_*_on_connect = False: a connection names a database / schema that does not exist yet; another connection creates
         # them; the first connection's own qualified USE SCHEMA then gives it the full context
         H(("c,11,21,0,0", ("db1", "s1")), ("c,-,-,0,0", (None, None)), ("s,1,ts,31", "select x from t1 order by x"), ("s,2,cd,11,0", "create database db1"),
           ("s,2,sc,0,11.21", "create schema db1.s1"), ("s,2,tc,t,0,0,11.21.31", "create table db1.s1.t1 (x int)"), ("s,1,ts,21.31", "select x from s1.t1 order by x"),
-          ("s,1,su,11.21", "use schema db1.s1"), ("s,1,ti,1,31", "insert into t1 values (1)"), ("s,1,ts,21.31", "select x from s1.t1 order by x"),
+          ("s,1,su,11.21", "use schema db1.s1"), ("s,1,ti,1,31", "insert into t1 (x) values (1)"), ("s,1,ts,21.31", "select x from s1.t1 order by x"),
           ("s,1,sc,0,22", "create schema s2"), ("s,1,x", "select current_database(), current_schema()"), flags=(0, 0), raw=True),
         # …the same with the unqualified USE SCHEMA (resolves against the *named* database, database_set stays False) and USE DATABASE;
         # a named schema that is missing while the database exists
@@ -311,20 +339,32 @@ def corpus() -> list[dict]:
           ("s,3,sc,0,22", "create schema s2"), ("s,3,su,22", "use schema s2"), ("s,3,tc,t,0,0,32", "create table t2 (x int)"), flags=(0, 0), raw=True),
         # two-table statements whose target lives in another schema than the current one, with a same-named table in the current schema
         H(("c,11,21,1,1", ("db1", "s1")), ("s,1,sc,0,22", "create schema s2"), ("s,1,tc,t,0,0,31", "create table t1 (x int)"), ("s,1,tc,t,0,0,22.31", "create table s2.t1 (x int)"),
-          ("s,1,tc,t,0,0,32", "create table t2 (x int)"), ("s,1,ti,1,32", "insert into t2 values (1)"), ("s,1,ti,7,32", "insert into t2 values (7)"), ("s,1,ti,1,22.31", "insert into s2.t1 values (1)"),
-          ("s,1,w,mg,22.31,32", "merge into s2.t1 using t2 on t1.x = t2.x when not matched then insert (x) values (t2.x)"), ("s,1,w,is,11.22.31,32", "insert into db1.s2.t1 select x from t2"),
+          ("s,1,tc,t,0,0,32", "create table t2 (x int)"), ("s,1,ti,1,32", "insert into t2 (x) values (1)"), ("s,1,ti,7,32", "insert into t2 (x) values (7)"), ("s,1,ti,1,22.31", "insert into s2.t1 (x) values (1)"),
+          ("s,1,w,mg,22.31,32", "merge into s2.t1 using t2 on t1.x = t2.x when not matched then insert (x) values (t2.x)"), ("s,1,w,is,11.22.31,32", "insert into db1.s2.t1 (x) select x from t2"),
           ("s,1,w,uf,22.31,21.32", "update s2.t1 set x = t1.x + 1000 from s1.t2 where t1.x = t2.x"), ("s,1,w,du,22.31,32", "delete from s2.t1 using t2 where t1.x = t2.x"),
           ("s,1,w,cs,22.33,31", "create table s2.t3 as select x from t1"), ("s,1,w,cl,22.32,22.31", "create table s2.t2 clone s2.t1"), ("s,1,w,mg,31,22.31", "merge into t1 using s2.t1 on t1.x = t1.x when not matched then insert (x) values (t1.x)"),
           ("s,1,ts,31", "select x from t1 order by x"), raw=True),
         # CTEs: the CTE's name may equal the target's name; on connections without schema / database the unqualified target still needs one
-        H(("c,11,21,1,1", ("db1", "s1")), ("c,11,-,1,1", ("db1", None)), ("c,-,-,1,1", (None, None)), ("s,1,tc,t,0,0,31", "create table t1 (x int)"), ("s,1,ti,1,31", "insert into t1 values (1)"),
+        H(("c,11,21,1,1", ("db1", "s1")), ("c,11,-,1,1", ("db1", None)), ("c,-,-,1,1", (None, None)), ("s,1,tc,t,0,0,31", "create table t1 (x int)"), ("s,1,ti,1,31", "insert into t1 (x) values (1)"),
           ("s,2,w,cs,32,11.21.31", "create table t2 as with t2 as (select x from db1.s1.t1) select x from t2"), ("s,3,w,cs,32,11.21.31", "create table t2 as with t2 as (select x from db1.s1.t1) select x from t2"),
-          ("s,2,w,is,31,11.21.31", "insert into t1 with t1 as (select x from db1.s1.t1) select x from t1"), ("s,3,w,is,31,11.21.31", "insert into t1 with cte1 as (select x from db1.s1.t1) select x from cte1"),
-          ("s,1,w,cs,32,11.21.31", "create table t2 as with t2 as (select x from db1.s1.t1) select x from t2"), ("s,1,w,is,32,31", "insert into t2 with t2 as (select x from t1) select x from t2"),
+          ("s,2,w,is,31,11.21.31", "insert into t1 (x) with t1 as (select x from db1.s1.t1) select x from t1"), ("s,3,w,is,31,11.21.31", "insert into t1 (x) with cte1 as (select x from db1.s1.t1) select x from cte1"),
+          ("s,1,w,cs,32,11.21.31", "create table t2 as with t2 as (select x from db1.s1.t1) select x from t2"), ("s,1,w,is,32,31", "insert into t2 (x) with t2 as (select x from t1) select x from t2"),
           ("s,2,w,cs,21.33,21.31", "create table s1.t3 as with t3 as (select x from s1.t1) select x from t3"), ("s,3,w,cs,21.33,21.31", "create table s1.t3 as with c as (select x from s1.t1) select x from c"), raw=True),
+        # other ways to name a table: IDENTIFIER('<name>') / IDENTIFIER($var) and write_pandas(database=?, schema=?) at every level, with a
+        # same-named table in the current schema; sized VARCHARs declared outside the current schema
+        {"flags": [1, 1], "ops": prefix((1, 1)) + [
+            {"op": "c,11,21,1,1", "connect": ["db1", "s1"]}, {"op": "c,11,-,1,1", "connect": ["db1", None]}, {"op": "s,1,sc,0,22", "sql": "create schema s2"},
+            {"op": "s,1,tc,t,0,0,31", "sql": "create table t1 (x int, v varchar(3))", "vlen": 3}, {"op": "s,1,tc,t,0,0,22.31", "sql": "create table s2.t1 (x int, v varchar(10))", "vlen": 10},
+            {"op": "s,1,ii,1,22.31", "sql": "insert into identifier('s2.t1') (x) values (1)"}, {"op": "s,1,ii,2,11.22.31", "pre": "set tbl = 'db1.s2.t1'", "sql": "insert into identifier($tbl) (x) values (2)"},
+            {"op": "s,1,ii,3,31", "sql": "insert into identifier('T1') (x) values (3)"}, {"op": "s,1,is,22.31", "pre": "set tbl = 'S2.T1'", "sql": "select x from identifier($tbl) order by x"},
+            {"op": "s,1,is,11.21.31", "sql": "select x from identifier('db1.s1.t1') order by x"}, {"op": "s,2,is,11.22.31", "sql": "select x from identifier('db1.s2.t1') order by x"},
+            {"op": "s,1,wp,4,31", "wp": {"table_name": "t1"}, "sql": "write_pandas(conn, df, 't1')"}, {"op": "s,1,wp,5,22.31", "wp": {"table_name": "t1", "schema": "s2"}, "sql": "write_pandas(conn, df, 't1', schema='s2')"},
+            {"op": "s,1,wp,6,11.22.31", "wp": {"table_name": "T1", "schema": "S2", "database": "DB1"}, "sql": "write_pandas(conn, df, 'T1', database='DB1', schema='S2')"},
+            {"op": "s,2,wp,7,22.31", "wp": {"table_name": "t1", "schema": "s2"}, "sql": "write_pandas(conn, df, 't1', schema='s2')"}, {"op": "s,2,wp,8,31", "wp": {"table_name": "t1"}, "sql": "write_pandas(conn, df, 't1')"},
+            {"op": "s,1,ts,31", "sql": "select x from t1 order by x"}, {"op": "s,1,ts,22.31", "sql": "select x from s2.t1 order by x"}] + suffix()},
         # quoted lower / mixed-case database and schema names: reported exactly as written
         H(("c,11,21,1,1", ("db1", "s1")), ("s,1,cd,14,0", 'create database "dbq"'), ("s,1,ud,14", 'use database "dbq"'), ("s,1,x", "select current_database(), current_schema()"),
-          ("s,1,sc,0,24", 'create schema "Sq"'), ("s,1,su,24", 'use schema "Sq"'), ("s,1,tc,t,0,0,31", "create table t1 (x int)"), ("s,1,ti,1,14.24.31", 'insert into "dbq"."Sq".t1 values (1)'),
+          ("s,1,sc,0,24", 'create schema "Sq"'), ("s,1,su,24", 'use schema "Sq"'), ("s,1,tc,t,0,0,31", "create table t1 (x int)"), ("s,1,ti,1,14.24.31", 'insert into "dbq"."Sq".t1 (x) values (1)'),
           ("s,1,ts,31", "select x from t1 order by x"), ("s,1,su,11.21", "use schema db1.s1"), ("s,1,su,14.24", 'use schema "dbq"."Sq"'), ("s,1,x", "select current_database(), current_schema()"),
           ("s,1,sd,1,24", 'drop schema if exists "Sq"'), ("s,1,tc,t,0,0,32", "create table t2 (x int)"), raw=True),
     ]
@@ -340,11 +380,19 @@ def _id(name):
     return str(IDS.get(str(name), f"?{name}"))
 
 
-def _real_res(conn, op: str, sql: str) -> str:
+def _real_res(conn, op: str, sql: str, opd: dict | None = None) -> str:
     import snowflake.connector.errors as E
     kind = op.split(",")[2]
+    opd = opd or {}
     try:
+        if "wp" in opd:
+            import pandas as pd
+            import snowflake.connector.pandas_tools as pt
+            pt.write_pandas(conn, pd.DataFrame({"X": [int(op.split(",")[3])]}), **opd["wp"])
+            return "ok"
         cur = conn.cursor()
+        if "pre" in opd:
+            cur.execute(opd["pre"])
         cur.execute(sql)
         rows = cur.fetchall()
     except E.ProgrammingError as e:
@@ -354,7 +402,7 @@ def _real_res(conn, op: str, sql: str) -> str:
         return f"e{e.errno}"
     except Exception as e:  # untranslated
         return f"eraw[{type(e).__name__}]"
-    if kind == "ts":
+    if kind in ("ts", "is"):
         return "r" + ".".join(str(r[0]) for r in rows)
     if kind == "j":
         return "r" + ".".join(str(r[0]) for r in rows)
@@ -409,7 +457,7 @@ def _current(c) -> str:
 
 CTX_KINDS = {"su", "ud", "ub", "sd", "dd", "cd", "connect"}   # after these CURRENT_* of EVERY connection is re-read
 DDL_KINDS = {"tc", "td", "sc", "sd", "cd", "dd", "connect", "w"}   # after these the catalog is re-read
-ROW_KINDS = {"w"}   # after these the rows of every object are re-read (which table did the rows land in)
+ROW_KINDS = {"w", "wp", "ii"}   # after these the rows of every object are re-read (which table did the rows land in)
 
 
 def real_history(hist: dict) -> list[str]:
@@ -443,7 +491,7 @@ def real_history(hist: dict) -> list[str]:
             else:
                 i = int(op["op"].split(",")[1])
                 kind = op["op"].split(",")[2]
-                res = _real_res(conns[i], op["op"], op["sql"])
+                res = _real_res(conns[i], op["op"], op["sql"], op)
             if kind in CTX_KINDS or last:
                 paths = [_current(c) for c in conns]
             else:
@@ -454,6 +502,11 @@ def real_history(hist: dict) -> list[str]:
             obs = f"{res}~{sess}~{cat or ''}"
             if last or (kind in ROW_KINDS and cat):
                 obs += "~" + _rows(conns[0], cat)
+            if "lens" in op and res == "ok":
+                cur = conns[0].cursor()
+                cur.execute("select table_schema, table_name, character_maximum_length from information_schema.columns "
+                            f"where table_catalog = '{NAMES[op['lens']]}' and column_name = 'V'")
+                obs += "~L:" + ",".join(sorted(f"{_id(a)}.{_id(b)}={c}" for a, b, c in cur.fetchall()))
             out.append(obs)
     return out
 
@@ -494,6 +547,8 @@ def _check_history(chk, hist: dict, real: list[str], reply: dict) -> None:
     fp = tuple(o["op"] for o in ops)
     chk.count(f"history:create_database_on_connect={hist['flags'][0]},create_schema_on_connect={hist['flags'][1]}")
     nontrivial = sum(1 for o in ops if not o["op"].startswith("c,")) >= 3
+    lens: dict = {}
+    prev_objs: set = set()
     chk.case(fp, nontrivial=nontrivial)
     for k, op in enumerate(ops):
         if k >= len(real):
@@ -508,7 +563,40 @@ def _check_history(chk, hist: dict, real: list[str], reply: dict) -> None:
             key = key[:-len("+anyerror")]
             chk.count("steps:double-fault (error class not compared)")
         parts = real[k].split("~")
+        lens_part = next((p_[2:] for p_ in parts[3:] if p_.startswith("L:")), None)
+        parts = [p_ for p_ in parts if not p_.startswith("L:")]
         r_res, r_sess, r_cat = _canon_res(parts[0]), parts[1], parts[2]
+        # declared VARCHAR lengths, keyed by the fully qualified table the model created
+        cur_objs = {o.split(":")[0] for o in impl_cat.split("|")[2].split(",") if o and o.split(":")[1] == "t"}
+        if "vlen" in op and impl_res == "ok" and len(cur_objs - prev_objs) == 1:
+            # only a CREATE issued on a coherent connection outside every finding region has a specified bookkeeping
+            lens[next(iter(cur_objs - prev_objs))] = op["vlen"] if (spec_res != "?" and key == "-") else None
+            if not (spec_res != "?" and key == "-"):
+                # e.g. after C03/use-database-stale-schema the lengths are filed under the stale schema: a same-named table there is clobbered
+                for k_ in lens:
+                    if k_.split(".")[2] == op["op"].split(",")[-1].split(".")[-1]:
+                        lens[k_] = None
+        if "vlen" in op and impl_res == "ok" and cur_objs == prev_objs:
+            # CREATE TABLE IF NOT EXISTS on an existing table creates nothing but re-records the lengths (C09/create-if-not-exists-overwrites-metadata)
+            for k_ in lens:
+                if k_.split(".")[2] == op["op"].split(",")[-1].split(".")[-1]:
+                    lens[k_] = None
+        for gone in [k_ for k_ in lens if k_ not in cur_objs]:
+            del lens[gone]
+        prev_objs = cur_objs
+        if lens_part is not None:
+            skip = {f"{k_.split('.')[1]}.{k_.split('.')[2]}" for k_, n_ in lens.items() if n_ is None}
+            tracked = {f"{k_.split('.')[1]}.{k_.split('.')[2]}" for k_, n_ in lens.items() if n_ is not None and k_.split(".")[0] == str(op["lens"])}
+            # tables that got their V column by CLONE (no CREATE of their own: C09/metadata-lost-on-clone) are not tracked
+            lens_part = ",".join(e_ for e_ in lens_part.split(",") if e_ and e_.split("=")[0] in tracked)
+            want_l = ",".join(sorted(f"{k_.split('.')[1]}.{k_.split('.')[2]}={n_}" for k_, n_ in lens.items()
+                                     if n_ is not None and k_.split(".")[0] == str(op["lens"])))
+            chk.count("lens-observations")
+            if lens_part != want_l:
+                chk.violation(f"declared VARCHAR lengths of the tables of database {NAMES[op['lens']]} (information_schema.columns, column V) are [{lens_part}], "
+                              f"the CREATE TABLE statements declared [{want_l}] (schema.table=length, names as numbers)", {**case, "step": k},
+                              broken="C03 mechanism 4: text-length bookkeeping files under the statement's own schema (cursor.py:369-376)")
+                return
         kind = "connect" if "connect" in op else op["op"].split(",")[2]
         chk.count("op:" + kind)
         chk.count("res:" + (r_res[:6] if r_res.startswith("e") else r_res[:1]))
@@ -573,7 +661,7 @@ def _check_history(chk, hist: dict, real: list[str], reply: dict) -> None:
 
 def _histories(chk) -> list[list[dict]]:
     rnd = random.Random(chk.seed)
-    n = 180 if chk.tier == "quick" else 1200
+    n = 150 if chk.tier == "quick" else 1000
     hs = corpus()
     for _ in range(n):
         hs.append(gen_history(rnd, rnd.randint(5, 40)))
